@@ -73,6 +73,13 @@ Proof.
   - replace ((0 <=? i + 1) && (i + 1 <? 1 + blen b)) with false by lia. reflexivity.
 Qed.
 
+Lemma idx_1 a b r : idx (a :: b :: r) 1 = Ok b.
+Proof. change 1 with (0 + 1). rewrite idx_S_cons by lia. apply idx_0_cons. Qed.
+Lemma idx_2 a b c r : idx (a :: b :: c :: r) 2 = Ok c.
+Proof. change 2 with (1 + 1). rewrite idx_S_cons by lia. apply idx_1. Qed.
+Lemma idx_3 a b c d r : idx (a :: b :: c :: d :: r) 3 = Ok d.
+Proof. change 3 with (2 + 1). rewrite idx_S_cons by lia. apply idx_2. Qed.
+
 Lemma slice_ok b lo hi : 0 <= lo <= hi -> hi <= blen b ->
   exists s, slice b lo hi = Ok s /\ blen s = hi - lo.
 Proof.
@@ -112,6 +119,35 @@ Proof.
   rewrite Z.sub_0_r. unfold blen. rewrite Nat2Z.id. cbn [Z.to_nat skipn].
   rewrite firstn_app, Nat.sub_diag, firstn_all. cbn [firstn]. rewrite app_nil_r.
   reflexivity.
+Qed.
+
+Lemma slice_app_mid a b c : slice (a ++ b ++ c) (blen a) (blen a + blen b) = Ok b.
+Proof.
+  unfold slice. rewrite !blen_app.
+  pose proof (blen_nonneg a). pose proof (blen_nonneg b). pose proof (blen_nonneg c).
+  replace ((0 <=? blen a) && (blen a <=? blen a + blen b) &&
+           (blen a + blen b <=? blen a + (blen b + blen c))) with true by lia.
+  replace (blen a + blen b - blen a) with (blen b) by lia.
+  unfold blen. rewrite !Nat2Z.id, skipn_app, skipn_all, Nat.sub_diag. cbn [app skipn].
+  rewrite firstn_app, Nat.sub_diag, firstn_all. cbn [firstn]. rewrite app_nil_r.
+  reflexivity.
+Qed.
+
+Lemma add_nocarry_lor a b : Z.land a b = 0 -> a + b = Z.lor a b.
+Proof.
+  intros H. rewrite Z.add_nocarry_lxor by exact H. apply Z.lxor_lor. exact H.
+Qed.
+
+(* x & m <= m for a non-negative mask *)
+Lemma land_upper_bound a m : 0 <= m -> 0 <= Z.land a m <= m.
+Proof.
+  intros Hm. split; [apply Z.land_nonneg; right; exact Hm|].
+  assert (H : m = Z.ldiff m a + Z.land a m).
+  { rewrite add_nocarry_lor.
+    - rewrite (Z.land_comm a m). symmetry. apply Z.lor_ldiff_and.
+    - rewrite Z.land_assoc, Z.land_ldiff. apply Z.land_0_l. }
+  assert (0 <= Z.ldiff m a) by (apply Z.ldiff_nonneg; left; exact Hm).
+  lia.
 Qed.
 
 Ltac idx_step :=
@@ -158,16 +194,16 @@ Lemma get_obu_len_fuel_5 : forall data length,
 Proof.
   intros data length Hl.
   assert (G : forall fuel offset length, 0 <= offset <= blen data ->
-    4 - offset < Z.of_nat fuel ->
+    offset <= 4 -> 4 - offset < Z.of_nat fuel ->
     exists r, get_obu_len fuel data offset length = Ok r).
-  { induction fuel; intros offset len Ho Hf.
+  { induction fuel; intros offset len Ho Ho4 Hf.
     - lia.
     - cbn [get_obu_len].
       destruct (blen data <=? offset) eqn:E1; [eauto|].
       destruct (4 <=? offset) eqn:E2; [eauto|].
       idx_step. cbv zeta. destruct (Z.land x 128 =? 0); [eauto|].
       apply IHfuel; lia. }
-  apply G; [pose proof (blen_nonneg data); lia | lia].
+  apply G; [pose proof (blen_nonneg data); lia | lia | lia].
 Qed.
 
 Lemma get_obu_spec data last :
@@ -248,8 +284,7 @@ Lemma av1_w_of_range b0 : 0 <= av1_w_of b0 <= 3.
 Proof.
   unfold av1_w_of. rewrite Z.shiftr_div_pow2 by lia.
   assert (0 <= Z.land b0 48 <= 48).
-  { split; [apply Z.land_nonneg; right; lia|].
-    destruct (Z.land_upper_bound_r b0 48); lia. }
+  { apply land_upper_bound. lia. }
   change (2 ^ 4) with 16. lia.
 Qed.
 
@@ -490,7 +525,7 @@ Proof.
   rewrite Z.shiftl_mul_pow2 by lia. change (2 ^ 8) with 256.
   rewrite w16_small by lia.
   (* b2*256 has no bit below 8, b3 none from 8 on: or = plus *)
-  rewrite <- Z.add_nocarry_lor.
+  rewrite <- add_nocarry_lor.
   - lia.
   - apply Z.bits_inj'. intros n Hn. rewrite Z.land_spec, Z.bits_0.
     destruct (Z.ltb_spec n 8).
@@ -534,8 +569,7 @@ Proof.
   destruct (idx pl 9); cbn [bind]; try discriminate.
   cbv zeta. intros [= <- <-].
   assert (G : forall x, 0 <= Z.land x 16383 < 16384).
-  { intros x. split; [apply Z.land_nonneg; right; lia|].
-    destruct (Z.land_upper_bound_r x 16383); lia. }
+  { intros x. pose proof (land_upper_bound x 16383). lia. }
   split; apply G.
 Qed.
 
@@ -598,13 +632,12 @@ Proof.
   replace (1 <? 1 + (1 + (1 + (1 + blen rest)))) with true by lia.
   unfold h264_step. rewrite !blen_cons.
   replace (1 + (1 + (1 + (1 + blen rest))) <? 1 + 2) with false by lia.
-  change 1 with (0 + 1) at 1. rewrite idx_S_cons, idx_0_cons by lia. cbn [bind].
-  change (1 + 1) with (0 + 1 + 1). rewrite !idx_S_cons, idx_0_cons by lia. cbn [bind].
+  rewrite idx_1. cbn [bind]. change (1 + 1) with 2. rewrite idx_2. cbn [bind].
   cbv zeta.
   assert (Hlen : Z.lor (w16 (Z.shiftl l1 8)) l2 = 256 * l1 + l2).
   { rewrite Z.shiftl_mul_pow2 by lia. change (2 ^ 8) with 256.
     rewrite w16_small by lia.
-    rewrite <- Z.add_nocarry_lor; [lia|].
+    rewrite <- add_nocarry_lor; [lia|].
     apply Z.bits_inj'. intros k Hk. rewrite Z.land_spec, Z.bits_0.
     destruct (Z.ltb_spec k 8).
     - replace (l1 * 256) with (l1 * 2 ^ 8) by reflexivity.
@@ -616,11 +649,10 @@ Proof.
       apply Z.lt_le_trans with (2 ^ 8); [change (2 ^ 8) with 256; lia|].
       apply Z.pow_le_mono_r; lia. }
   rewrite Hlen.
-  replace (1 + (1 + (1 + (1 + blen rest))) <? 0 + 1 + 2 + (256 * l1 + l2)) with false by lia.
-  cbn [Z.eqb].
+  cbn [Z.eqb Pos.eqb].
+  replace (1 + (1 + (1 + (1 + blen rest))) <? 1 + 2 + (256 * l1 + l2)) with false by lia.
   replace (256 * l1 + l2 <=? 0) with false by lia.
-  change (0 + 1 + 2 + 0) with (0 + 1 + 1 + 1). rewrite !idx_S_cons, idx_0_cons by lia.
-  cbn [bind]. rewrite Hn. reflexivity.
+  change (1 + 2 + 0) with 3. rewrite idx_3. cbn [bind]. rewrite Hn. reflexivity.
 Qed.
 
 (* concrete packets, computed *)
@@ -688,9 +720,45 @@ Example av1_ex_past : keyframe_av1 6 [40; 5; 10; 0; 50; 16] = Ok (false, false).
 Proof. vm_compute. reflexivity. Qed.
 
 (* AV1, general form of the first example: aggregation header with Z=0, N=1
-   and W=2; a first OBU of 1..127 bytes whose type is 1; a second OBU of
-   type 3 or 6 whose second byte has show_existing_frame=0 and
-   frame_type=KEY.  Whatever the remaining bytes: a keyframe. *)
+   and W=2; a first OBU of 1..127 bytes (one-byte LEB128 length) whose type
+   is 1 (sequence header); a second OBU of type 3 or 6 whose second byte has
+   show_existing_frame=0 and frame_type=KEY.  Whatever the other bytes: a
+   keyframe. *)
+
+(* a one-byte LEB128 length that fits: the OBU is exactly the next L bytes *)
+Lemma get_obu_one_byte_len : forall obu rest,
+  blen obu < 128 ->
+  get_obu (blen obu :: obu ++ rest) false = Ok (obu, 1 + blen obu, false).
+Proof.
+  intros obu rest HL.
+  pose proof (blen_nonneg obu) as H0. pose proof (blen_nonneg rest) as H1.
+  set (L := blen obu) in *.
+  assert (HL7 : Z.land L 127 = L).
+  { change 127 with (Z.ones 7). rewrite Z.land_ones by lia.
+    apply Z.mod_small. change (2 ^ 7) with 128. lia. }
+  assert (HL8 : Z.land L 128 = 0).
+  { apply Z.bits_inj'. intros n Hn. rewrite Z.land_spec, Z.bits_0.
+    destruct (Z.eq_dec n 7) as [->|Hne].
+    - replace (Z.testbit L 7) with false; [reflexivity|].
+      symmetry. destruct (Z.eq_dec L 0) as [->|]; [reflexivity|].
+      apply Z.bits_above_log2; [lia|].
+      apply Z.log2_lt_pow2; [lia|]. change (2 ^ 7) with 128. lia.
+    - replace (Z.testbit 128 n) with false; [apply andb_false_r|].
+      change 128 with (2 ^ 7). rewrite Z.pow2_bits_eqb by lia.
+      symmetry. apply Z.eqb_neq. lia. }
+  unfold get_obu, fuel_for. cbn [length get_obu_len].
+  replace (blen (L :: obu ++ rest) <=? 0) with false
+    by (rewrite blen_cons, blen_app; lia).
+  change (4 <=? 0) with false. cbv iota.
+  rewrite idx_0_cons; cbn [bind]. cbv zeta.
+  rewrite HL8, HL7. change (0 * 7) with 0. rewrite Z.shiftl_0_r, Z.lor_0_l.
+  change (0 =? 0) with true. cbv iota. cbn [bind]. change (0 + 1) with 1.
+  replace (blen (L :: obu ++ rest) <? 1 + L) with false
+    by (rewrite blen_cons, blen_app; lia).
+  change (L :: obu ++ rest) with ([L] ++ obu ++ rest).
+  change 1 with (blen [L]) at 1 2. subst L. rewrite slice_app_mid. reflexivity.
+Qed.
+
 Theorem av1_seq_then_key_frame : forall fuel b0 h1 body1 h2 f2 body2,
   Z.land b0 136 = 8 -> av1_w_of b0 = 2 ->
   blen (h1 :: body1) < 128 ->
@@ -701,71 +769,39 @@ Theorem av1_seq_then_key_frame : forall fuel b0 h1 body1 h2 f2 body2,
     (b0 :: blen (h1 :: body1) :: (h1 :: body1) ++ h2 :: f2 :: body2) = Ok (true, true).
 Proof.
   intros fuel b0 h1 body1 h2 f2 body2 Hz Hw Hl1 Ht1 Ht2 Hs Hk.
-  set (obu1 := h1 :: body1) in *.
-  set (obu2 := h2 :: f2 :: body2).
-  set (L := blen obu1) in *.
-  assert (HL : 1 <= L) by (subst L obu1; rewrite blen_cons; pose proof (blen_nonneg body1); lia).
-  pose proof (blen_nonneg obu2) as H2.
+  pose proof (blen_nonneg body1) as Hb1. pose proof (blen_nonneg body2) as Hb2.
+  assert (Hlen2 : blen (h2 :: f2 :: body2) = 2 + blen body2) by (rewrite !blen_cons; lia).
+  assert (Hlen1 : blen (h1 :: body1) = 1 + blen body1) by (rewrite !blen_cons; lia).
+  remember (h1 :: body1) as obu1 eqn:E1.
+  remember (h2 :: f2 :: body2) as obu2 eqn:E2.
   unfold keyframe_av1.
-  replace (blen (b0 :: L :: obu1 ++ obu2) <? 2) with false
+  replace (blen (b0 :: blen obu1 :: obu1 ++ obu2) <? 2) with false
     by (rewrite !blen_cons, blen_app; lia).
-  rewrite idx_0_cons; cbn [bind]. rewrite Hz. cbn [Z.eqb Pos.eqb negb]. rewrite Hw.
-  (* first iteration *)
+  rewrite idx_0_cons; cbn [bind]. rewrite Hz. change (negb (8 =? 8)) with false. cbv iota.
+  rewrite Hw.
+  (* first iteration: the sequence header *)
   cbn [av1_loop]. unfold av1_step at 1.
-  change (b0 :: L :: obu1 ++ obu2) with ([b0] ++ (L :: obu1 ++ obu2)).
+  change (b0 :: blen obu1 :: obu1 ++ obu2) with ([b0] ++ (blen obu1 :: obu1 ++ obu2)).
   change 1 with (blen [b0]) at 1. rewrite slice_app_r; cbn [bind].
-  cbn [Z.eqb Z.add Pos.add Pos.eqb].
-  unfold get_obu. unfold fuel_for. cbn [length get_obu_len].
-  replace (blen (L :: obu1 ++ obu2) <=? 0) with false
-    by (rewrite blen_cons, blen_app; lia).
-  cbn [Z.leb Z.compare]. rewrite idx_0_cons; cbn [bind]. cbv zeta.
-  assert (HL7 : Z.land L 127 = L).
-  { change 127 with (Z.ones 7). rewrite Z.land_ones by lia.
-    apply Z.mod_small. change (2 ^ 7) with 128. lia. }
-  assert (HL8 : Z.land L 128 = 0).
-  { apply Z.bits_inj'. intros n Hn. rewrite Z.land_spec, Z.bits_0.
-    destruct (Z.eq_dec n 7) as [->|Hne].
-    - replace (Z.testbit L 7) with false; [reflexivity|].
-      symmetry. apply Z.bits_above_log2; [lia|].
-      apply Z.log2_lt_pow2; [lia|]. change (2 ^ 7) with 128. lia.
-    - replace (Z.testbit 128 n) with false; [apply andb_false_r|].
-      change 128 with (2 ^ 7). rewrite Z.pow2_bits_eqb by lia.
-      symmetry. apply Z.eqb_neq. lia. }
-  rewrite HL8, HL7. cbn [Z.eqb Z.mul Z.shiftl Z.lor bind Z.add].
-  replace (blen (L :: obu1 ++ obu2) <? 1 + L) with false
-    by (rewrite blen_cons, blen_app; lia).
-  change (L :: obu1 ++ obu2) with ([L] ++ (obu1 ++ obu2)).
-  assert (Hs1 : slice ([L] ++ obu1 ++ obu2) 1 (1 + L) = Ok obu1).
-  { unfold slice. rewrite !blen_app. change (blen [L]) with 1.
-    replace ((0 <=? 1) && (1 <=? 1 + L) && (1 + L <=? 1 + (blen obu1 + blen obu2)))
-      with true by (subst L; lia).
-    replace (1 + L - 1) with L by lia.
-    cbn [Z.to_nat Pos.to_nat Pos.iter_op Nat.add skipn app].
-    subst L. unfold blen. rewrite Nat2Z.id.
-    rewrite firstn_app, Nat.sub_diag, firstn_all. cbn [firstn]. rewrite app_nil_r.
-    reflexivity. }
-  rewrite Hs1; cbn [bind].
-  replace (blen obu1 <? 1) with false by (fold L; lia).
-  subst obu1. rewrite idx_0_cons; cbn [bind]. rewrite Ht1.
-  cbn [Z.eqb Pos.eqb negb bind orb Z.leb Z.compare Pos.compare Pos.compare_cont].
-  (* second iteration: the last OBU *)
-  cbn [av1_loop]. unfold av1_step.
-  set (obu1 := h1 :: body1) in *.
-  assert (Hs2 : slice ([b0] ++ [L] ++ obu1 ++ obu2) (1 + (1 + L))
-                      (blen ([b0] ++ [L] ++ obu1 ++ obu2)) = Ok obu2).
-  { replace ([b0] ++ [L] ++ obu1 ++ obu2) with (([b0] ++ [L] ++ obu1) ++ obu2)
-      by (rewrite <- !app_assoc; reflexivity).
-    replace (1 + (1 + L)) with (blen ([b0] ++ [L] ++ obu1))
-      by (rewrite !blen_app; change (blen [b0]) with 1; change (blen [L]) with 1; subst L; lia).
-    apply slice_app_r. }
-  rewrite Hs2; cbn [bind].
-  cbn [Z.add Pos.add Z.eqb Pos.eqb]. unfold get_obu.
-  replace (blen obu2 <? 1) with false by (subst obu2; rewrite !blen_cons; pose proof (blen_nonneg body2); lia).
-  subst obu2. rewrite idx_0_cons; cbn [bind].
-  assert (Ht : (Z.shiftr (Z.land h2 56) 3 =? 3) || (Z.shiftr (Z.land h2 56) 3 =? 6) = true) by lia.
-  rewrite Ht.
-  replace (blen (h2 :: f2 :: body2) <? 2) with false
-    by (rewrite !blen_cons; pose proof (blen_nonneg body2); lia).
-  change 1 with (0 + 1) at 1. rewrite idx_S_cons, idx_0_cons by lia. cbn [bind].
+  change (2 =? 0 + 1) with false.
+  rewrite get_obu_one_byte_len by exact Hl1. cbn [bind].
+  replace (blen obu1 <? 1) with false by lia.
+  rewrite E1 at 1. rewrite idx_0_cons; cbn [bind]. rewrite Ht1.
+  change (0 =? 0) with true. change (negb (1 =? 1)) with false. cbv iota. cbn [bind orb].
+  change (2 <=? 0) with false. cbv iota. change (0 + 1) with 1.
+  (* second iteration: the last OBU, which has no length *)
+  cbn [av1_loop bind]. unfold av1_step. cbv beta iota.
+  replace ([b0] ++ blen obu1 :: obu1 ++ obu2) with (([b0] ++ [blen obu1] ++ obu1) ++ obu2)
+    by (rewrite <- !app_assoc; reflexivity).
+  replace (1 + (1 + blen obu1)) with (blen ([b0] ++ [blen obu1] ++ obu1))
+    by (rewrite !blen_app; change (blen [b0]) with 1; change (blen [blen obu1]) with 1; lia).
+  rewrite slice_app_r; cbn [bind].
+  change (2 =? 1 + 1) with true. unfold get_obu. cbn [bind].
+  replace (blen obu2 <? 1) with false by lia.
+  rewrite E2 at 1. rewrite idx_0_cons; cbn [bind].
+  change (1 =? 0) with false. cbv iota.
+  replace ((Z.shiftr (Z.land h2 56) 3 =? 3) || (Z.shiftr (Z.land h2 56) 3 =? 6)) with true by lia.
+  replace (blen obu2 <? 2) with false by lia.
+  rewrite E2. rewrite idx_1; cbn [bind].
   rewrite Hs, Hk. reflexivity.
 Qed.
